@@ -53,4 +53,9 @@ BUILT = {
   level='exploration',
   text='Files with blank lines, comments spanning lines, splices between and inside tokens and comments, multi-line defines, nested includes, #line, CR/LF and filler pushing them across read-buffer boundaries; every __LINE__/__FILE__ probe (direct and through macros), every .loc record of a marker call and the line of a provoked diagnostic must equal the physical position the generator counted.',
   note='model trusted only where gcc and clang confirm it; probes on continuation lines (D40) and absolute line values after #line (D48) excluded, both recorded'),
+ 'C19': dict(
+  technique='exhaustive enumeration of token-pair x expansion-boundary adjacency table (re-lex of -E output vs reference token sequence; E(E(x))==E(x)) + property-based metamorphic round trips on Hypothesis-generated macro-ised programs (S(x)==S(E(x)), E idempotent)',
+  level='exploration',
+  text='All ordered pairs of 62 token spellings x 9 boundary forms (25 k cases) are enumerated exhaustively; in addition generated valid programs are re-spaced densely and macro-ised (token runs, identity wrappers, empty macros, no white space where the source stays unambiguous) and must compile to the same assembly from their -E output, which must be a fixpoint of -E.',
+  note='the finite adjacency sub-space is covered completely for the chosen alphabet; programs are sampled; gcc/clang -E -P token sequences are the reference for the table'),
 }
